@@ -141,9 +141,9 @@ pub fn run_catch<T, E>(f: impl FnOnce() -> Result<T, E>, classify: impl Fn(&E) -
 pub fn classify_text(t: &str) -> i64 {
     let l = t.to_lowercase();
     if l.contains("unauthorized") { E_UNAUTH }
-    else if l.contains("disabled") { E_DISABLED }
-    else if l.contains("max spread") || l.contains("max slippage") || l.contains("minimum receive")
-        || l.contains("maxspread") || l.contains("maxslippage") || l.contains("minimumreceive") { E_SLIPPAGE }
+    else if l.contains("operation disabled") || l.contains("disabled") { E_DISABLED }
+    else if l.contains("spread limit exceeded") || l.contains("slippage tolerance exceeded") || l.contains("minimum receive")
+        || l.contains("minimumreceive") { E_SLIPPAGE }
     else { E_OTHER }
 }
 
